@@ -774,7 +774,15 @@ def classify(res, scn, issuer_of=None):
                       "foreign releases %r, orphaned requests granted later %r, still polling %r"
                       % (t["op"], t["pending_nodes"], a["foreign_releases"][:3], a["orphan_acquired"][:3], a["orphans_pending"][:3]))
     shared = shared_consumed_handles(ops)
-    if shared and all(k in shared for k in hung):
+    # collateral of the same defect: the late two-qubit gate on a consumed handle leaves the qubit lock of its OTHER operand held, so an
+    # operation of a third client on that other operand waits for ever (the finding's text: "a qubit lock stays held / an operation hangs")
+    collateral = set()
+    for k in shared:
+        if ops[k][0] == "g2":
+            for j, b in enumerate(ops):
+                if j not in shared and set(handles_of(b)) & set(handles_of(ops[k])):
+                    collateral.add(j)
+    if shared and all(k in shared or k in collateral for k in hung):
         return "D23", "operations %r name the same qubit handle and one of them consumes it (send / destructive measurement)" % (shared,)
     # root causes of hangs: follow waits-for edges
     if hung:
